@@ -6,7 +6,7 @@ rm -rf $WT; git -C /repo worktree add --detach $WT HEAD >/dev/null 2>&1 || { ech
 cd $WT
 run_demo() { if grep -q "^def test_\|import pytest" $SRC/demo.py && ! grep -q "__main__" $SRC/demo.py; then JOBLIB_SRC=$WT JOBLIB_WT=$WT JOBLIB_TREE=$WT PYTHONPATH=$WT timeout 300 /venv/bin/python -m pytest -q -p no:cacheprovider $SRC/demo.py >/tmp/confirm/${ID}_$TAG$M.demo_$1.log 2>&1; else JOBLIB_SRC=$WT JOBLIB_WT=$WT JOBLIB_TREE=$WT PYTHONPATH=$WT timeout 300 /venv/bin/python $SRC/demo.py >/tmp/confirm/${ID}_$TAG$M.demo_$1.log 2>&1; fi; echo $?; }
 A=$(run_demo clean)
-git apply $SRC/patch.diff 2>/tmp/confirm/${ID}_$TAG$M.apply.log || { echo "apply failed" > $RES; git -C /repo worktree remove --force $WT; exit 1; }
+git apply $SRC/patch.diff 2>/tmp/confirm/${ID}_$TAG$M.apply.log || patch -p1 -s < $SRC/patch.diff >>/tmp/confirm/${ID}_$TAG$M.apply.log 2>&1 || { echo "apply failed" > $RES; git -C /repo worktree remove --force $WT; exit 1; }
 B=$(run_demo bug)
 timeout 1800 /venv/bin/python -m pytest -q -p no:cacheprovider --timeout=900 --continue-on-collection-errors --junitxml=/tmp/confirm/${ID}_$TAG$M.junit.xml > /tmp/confirm/${ID}_$TAG$M.suite.log 2>&1
 S=$?
